@@ -109,6 +109,7 @@ type Exec struct {
 	rtErrT    types.Type
 	syncMaps  map[*Value]*MapV
 	inMerge   int
+	zw        map[*Value]*zwState
 	panicFn   string
 	mergeCond *Term
 	mergeFail map[*ssa.If]int
